@@ -2,6 +2,7 @@ package main
 
 import (
 	"fmt"
+	"os"
 	"sort"
 	"strings"
 	"sync"
@@ -112,6 +113,19 @@ func c19Round(c *Case, r *Rng, builtin bool, rep int) {
 				cc.errs = append(cc.errs, "create: "+err.Error())
 				return
 			}
+			// every connection tries to create one table under a shared name: exactly the first
+			// one may succeed, the refusals must not disturb anybody (the registry is process-wide)
+			sharedName := fmt.Sprintf("t%d_r%d_shared", c.Index, rep)
+			ownsShared := cc.conn.Create(spec(cc, sharedName)) == nil
+			// a failed CREATE makes SQLite reset this connection's schema: its virtual tables are
+			// disconnected and reconnect on their next use in SQL, which the s3db_* functions
+			// (they take the table name as a string) do not trigger; touch the table once
+			cc.conn.Rows("select count(*) from " + cc.table)
+			defer func() {
+				if ownsShared {
+					cc.conn.Exec("drop table " + sharedName)
+				}
+			}()
 			base := 10000 * (cc.idx + 1) // write_time range [base, base+9999]
 			tcur := base
 			own := func(n int) int { return 1000*(cc.idx+1) + n }
@@ -135,6 +149,9 @@ func c19Round(c *Case, r *Rng, builtin bool, rep int) {
 				}
 				underExpired := s >= expFrom && s < expTo
 				note := func(what string, err error) {
+					if os.Getenv("C19_DEBUG") != "" && cc.idx == 0 {
+						fmt.Printf("DBG c0 step %d %s -> %v (table %s)\n", s, what, err, cc.table)
+					}
 					if err == nil {
 						return
 					}
